@@ -847,6 +847,12 @@ fn emit_trace(
             let sig: String = wl.iter().map(|w| format!("{}{}", w["k"].as_str().unwrap_or(""), w["s"].as_u64().unwrap_or(0))).collect();
             if !seen_logs.insert(format!("{}:{}", sig, r["len"])) { continue; }
             let base = match std::fs::read(&c.img) { Ok(b) => b, Err(_) => continue };
+            // the same recovery on a device that refuses its first data-area write (C04: recovery can be
+            // restarted after it failed, too): what it wrote before giving up is a second write log
+            let faulted = recover_images_f(std::slice::from_ref(c), keys, ttl, dir, 1, true, Some(0));
+            let wl_f: Vec<Value> = faulted.first().and_then(|r| r.get("wlog")).and_then(|w| w.as_array()).cloned().unwrap_or_default();
+            let variants: Vec<(&[Value], &str)> = if wl_f.is_empty() || faulted[0]["ok"].as_bool() == Some(true) { vec![(wl.as_slice(), "")] } else { vec![(wl.as_slice(), ""), (wl_f.as_slice(), "f")] };
+            for (wl, suffix) in variants {
             let mut ev2: Vec<Value> = Vec::new();
             ev2.push(json!({"e": "init", "ds": 16, "de": total_blocks, "fmt": fmt, "ttl": ttl, "nk": keys.len(),
                             "now": rk(c.now), "cc": 1}));
@@ -869,7 +875,7 @@ fn emit_trace(
                 }
                 for s in absdev::subsets(&dev2.units(), max_exh) {
                     if cuts2.len() >= 400 { break; }
-                    let p = format!("{dir}/n{ci}_{}.bin", cuts2.len());
+                    let p = format!("{dir}/n{ci}{suffix}_{}.bin", cuts2.len());
                     std::fs::write(&p, dev2.image(&s)).expect("write nested image");
                     cuts2.push(Cut { at_event: ev2.len() - 1, now: c.now, units: s, torn: Vec::new(), img: p });
                 }
@@ -879,7 +885,7 @@ fn emit_trace(
             for (c2, r2) in cuts2.iter().zip(res2.iter()) {
                 by2.entry(c2.at_event).or_default().push(rec_event(c2, r2, keys, &gens, &rk));
             }
-            let np = format!("{}.nested{}.ndjson", out_path.trim_end_matches(".ndjson"), picked);
+            let np = format!("{}.nested{}{}.ndjson", out_path.trim_end_matches(".ndjson"), picked, suffix);
             let mut f = std::io::BufWriter::new(std::fs::File::create(&np).expect("nested out"));
             for (i, ev) in ev2.iter().enumerate() {
                 writeln!(f, "{}", ev).unwrap();
@@ -891,6 +897,7 @@ fn emit_trace(
             for c2 in &cuts2 { let _ = std::fs::remove_file(&c2.img); }
             nested_images += cuts2.len();
             nested_files += 1;
+            }
             picked += 1;
         }
     }
@@ -904,6 +911,12 @@ fn emit_trace(
 }
 
 fn recover_images(cuts: &[Cut], keys: &[Vec<u8>], ttl: bool, dir: &str, jobs: usize, writes: bool) -> Vec<Value> {
+    recover_images_f(cuts, keys, ttl, dir, jobs, writes, None)
+}
+
+/// `rfault`: the recovery itself runs on a failing device - its k-th write into the data area is refused
+/// (the journal and metadata regions stay writable).
+fn recover_images_f(cuts: &[Cut], keys: &[Vec<u8>], ttl: bool, dir: &str, jobs: usize, writes: bool, rfault: Option<u64>) -> Vec<Value> {
     let exe = std::env::current_exe().expect("current exe");
     let chunk = 40;
     let groups: Vec<&[Cut]> = cuts.chunks(chunk).collect();
@@ -917,7 +930,10 @@ fn recover_images(cuts: &[Cut], keys: &[Vec<u8>], ttl: bool, dir: &str, jobs: us
             let g = groups[gi];
             let list = format!("{dir}/list_{gi}.json");
             let outp = format!("{dir}/res_{gi}.json");
-            let items: Vec<Value> = g.iter().map(|c| json!({"img": c.img, "now": c.now})).collect();
+            let items: Vec<Value> = g.iter().map(|c| match rfault {
+                Some(k) => json!({"img": c.img, "now": c.now, "rfault": k}),
+                None => json!({"img": c.img, "now": c.now}),
+            }).collect();
             std::fs::write(&list, serde_json::to_string(&json!({"ttl": ttl, "items": items, "writes": writes,
                 "keys": keys.iter().map(|k| String::from_utf8_lossy(k).to_string()).collect::<Vec<_>>()})).unwrap()).unwrap();
             let child = std::process::Command::new(&exe)
@@ -966,6 +982,12 @@ pub fn recover_main(args: &[String]) -> i32 {
             obs::install();
         }
         feoxdb::verif::set_now(item["now"].as_u64().unwrap());
+        if let Some(k) = item.get("rfault").and_then(|x| x.as_u64()) {
+            let seen = std::sync::Arc::new(std::sync::atomic::AtomicU64::new(0));
+            feoxdb::verif::set_fault_fn(Some(Box::new(move |_idx, kind, sector, _len| {
+                if kind == "write" && sector >= 16 && seen.fetch_add(1, std::sync::atomic::Ordering::SeqCst) == k { 1 } else { 0 }
+            })));
+        }
         let size = std::fs::metadata(img).map(|m| m.len()).unwrap_or(0);
         let res = std::panic::catch_unwind(|| {
             FeoxStore::builder()
@@ -986,6 +1008,7 @@ pub fn recover_main(args: &[String]) -> i32 {
                 line
             }
         };
+        feoxdb::verif::set_fault_fn(None);
         let mut line = line;
         if want_writes {
             obs::uninstall();
